@@ -21,6 +21,7 @@ import YorkieModel.Driver.PubSubEngine
 import YorkieModel.Driver.TreeEngine
 import YorkieModel.Driver.ConcEngine
 import YorkieModel.Driver.SrvEngine
+import YorkieModel.Driver.UndoEngine
 open Yorkie.Driver
 
 def engines : List (String × Engine) := [
@@ -45,7 +46,7 @@ def engines : List (String × Engine) := [
   ("proto", ProtoEngine.engine),
   ("fdoc", FDocEngine.engine), ("json", JsonEngine.engine),
   ("pubsub", PubSubEngine.engine), ("pubsubstress", PubSubEngine.engine), ("tree", TreeEngine.engine), ("conc", ConcEngine.engine), ("srv", SrvEngine.engine),
-  ("compact", ProtoEngine.X.engine), ("faults", ProtoEngine.X.engine)
+  ("compact", ProtoEngine.X.engine), ("faults", ProtoEngine.X.engine), ("undo", UndoEngine.engine)
 ]
 
 partial def loop (e : Engine) (h : IO.FS.Stream) (out : IO.FS.Stream) (st : e.State) : IO Unit := do
